@@ -174,6 +174,22 @@ CLAIMS = {
             "call-graph reachability + panic-site inventory on MIR, guard liveness, provenance of for_each receivers, "
             "declarative-table cross-check (sval attributes vs prost-generated schema)",
             "3/C13"),
+    "C15": ("Decides: (R1) over the workspace call-graph closure of every parser entry point (FromStr impls, try_from_str/hex, "
+            "Value::parse, FromValue casts, Path constructors / is_valid_path / is_child_of, parse_rfc3339 + from_parts, the id "
+            "text buffers) every panic-capable site is discharged by an interval-lite argument (constants, type ranges, "
+            "dominating length/comparison guards, x % len, u8-indexed 256-tables, guarded ranges, get(0)-guarded [1..], "
+            "is_char_boundary-guarded split_at, copy_from_slice by construction) or an allow row with a reason; str range "
+            "indexing and sign-accepting integer parsers are forbidden in fixed-layout parsers (three fixed defects); (R2) "
+            "the compiler-evaluated hex tables are mutual inverses, 0xff exactly for non-hex, nibble table exact, and the "
+            "0xff sentinel is tested; Level Display texts are accepted prefixes; (R3) the automaton extracted from "
+            "is_valid_path by abstract interpretation over 4 character classes accepts every ident(::ident)* and nothing "
+            "outside seg(::seg)* (fixed defect); (R4) traceparent offsets (55; 2,35,52; 0..2,3..35,36..52,53..55) and RFC 3339 "
+            "separator offsets with ?-checked fields; FromValue casts are downcast-then-text-parse. NOT decided (and one "
+            "seeded change in to_parts is missed for that reason): format/parse identity of timestamps, calendar "
+            "conversion, lexicographic order, acceptance of every well-formed level text.",
+            "panic-site inventory with interval-lite abstract interpretation on MIR, constant-table evaluation by the "
+            "compiler, finite-automaton extraction by abstract interpretation, layout-constant agreement",
+            "3/C15"),
 }
 
 REASONS_NOT_YET = "check not built yet (build in progress; DESIGN.md section 3 lists the planned rules)"
